@@ -95,6 +95,18 @@ def run_prog(shape, pauses, dur, fails, fp, *, timeout=T, shutdown_at=None, via_
                     x, = fresh()
                     R['subs'].append((loop.time(), x, 'imm'))
                     b(x)
+                elif kind == 'r':     # the most recent argument is submitted again (same value)
+                    if nxt[0] > 0:
+                        x = nxt[0] - 1
+                        R['subs'].append((loop.time(), x, 'imm'))
+                        b(x)
+                elif kind == 'k':     # an awaitable producer that ends in CancelledError (e.g. a task cancelled by its owner)
+                    d = next_pause()
+
+                    async def awk(d=d):
+                        await aio.sleep(d)
+                        raise aio.CancelledError()
+                    b.await_(awk())
                 elif kind == 'm':
                     xs = fresh(2)
                     for x in xs:
@@ -212,7 +224,7 @@ def judge_c03(R, fails):
             devs.append('function-received-unsubmitted-argument')
             break
     for x in submitted:
-        if sum(1 for r in okinv if x in r['set']) > 1:
+        if sum(1 for r in okinv if x in r['set']) > sum(1 for _, y, _ in subs if y == x):
             devs.append('argument-delivered-to-two-successful-calls')
             break
     return devs
@@ -268,7 +280,7 @@ def judge_c08(R, shape, timeout=T):
         devs.append('function-called-with-empty-set')
     if R['outcome'][0] != 'ok':
         return devs
-    if any(k in 'iagwbE' for k in shape):
+    if any(k in 'iagwbEk' for k in shape):
         return devs  # debounce timing is only judged for immediate submissions without forced flush
     times = []
     for t, _, _ in subs:
@@ -363,7 +375,7 @@ def twin(prop, shape, pauses, dur, fails):
 def _cell(prop, shape, tier, tmo, dmax=25, pmax=25, fp=None, weight=2, deco=False, nfail=2, split=0):
     """split=1: partition every pause into [0,9] / [10,pmax]; split=2: also the duration."""
     from harness.batcher import parts, product_pre
-    npz = sum(1 for k in shape if k in 'pag')
+    npz = sum(1 for k in shape if k in 'pagk')
     has_prod = any(k in 'iag' for k in shape)
     sig = 'pauses: List[int], dur: int, fails: List[bool]' + (', fp: int' if has_prod and fp is None else '')
     base = 'len(pauses) == %d and len(fails) == %d' % (npz, nfail)
@@ -385,9 +397,9 @@ def _cell(prop, shape, tier, tmo, dmax=25, pmax=25, fp=None, weight=2, deco=Fals
 
 # shape -> split level (0 none, 1 pauses, 2 pauses and duration)
 QUICK_SHAPES = {
-    'C03': {'cwc': 0, 'cpwpc': 0, 'cpc': 0, 'cpcw': 0, 'mpc': 0, 'ipc': 0, 'apc': 2, 'cpa': 2, 'epc': 0},
-    'C07': {'cwpcw': 0, 'cw': 0, 'cW': 0, 'cpw': 0, 'cpW': 0, 'cpcw': 0, 'cbpw': 0, 'cBpc': 0, 'aw': 0, 'gW': 0, 'ew': 0, 'cpbpB': 2, 'ipw': 0},
-    'C08': {'e': 0, 'epe': 0, 'cpc': 0, 'cpcpc': 3, 'mpc': 0, 'cpm': 0, 'cpW': 0, 'ce': 0, 'cpcW': 0},
+    'C03': {'cwc': 0, 'ckpc': 0, 'cpwpc': 0, 'cpc': 0, 'cpcw': 0, 'mpc': 0, 'ipc': 0, 'apc': 2, 'cpa': 2, 'epc': 0},
+    'C07': {'cwpcw': 0, 'ckw': 0, 'kpcW': 0, 'cw': 0, 'cW': 0, 'cpw': 0, 'cpW': 0, 'cpcw': 0, 'cbpw': 0, 'cBpc': 0, 'aw': 0, 'gW': 0, 'ew': 0, 'cpbpB': 2, 'ipw': 0},
+    'C08': {'e': 0, 'epe': 0, 'cprpr': 2, 'cpc': 0, 'cpcpc': 3, 'mpc': 0, 'cpm': 0, 'cpW': 0, 'ce': 0, 'cpcW': 0},
 }
 THOROUGH_SHAPES = {
     'C03': ['gpc', 'cpgw', 'cpcpc', 'cpcpcw', 'mpipc', 'gpapc', 'cpgpcw', 'ipgpa', 'cpcpWpc', 'apcpb', 'cpcpcpc'],
@@ -411,7 +423,7 @@ def cells(prop, tier):
         for sh, tr in (('c', 'quick'), ('cpc', 'thorough'), ('a', 'quick'), ('cpcpc', 'thorough'), ('cpa', 'thorough'), ('gpc', 'thorough')):
             if tr == 'thorough' and tier != 'thorough':
                 continue
-            npz = sum(1 for k in sh if k in 'pag')
+            npz = sum(1 for k in sh if k in 'pagk')
             for sfx, pre in product_pre([parts('at', [(0, 9), (10, 19), (20, 45)]), parts('dur', [(0, 9), (10, 15)])]):
                 out.append(Cell(name='c07_shutdown_%s_p%s' % (sh, sfx), sig='pauses: List[int], dur: int, fails: List[bool], at: int',
                                 pre=['len(pauses) == %d and all(0 <= p <= 15 for p in pauses) and len(fails) == 1' % npz, pre],
@@ -422,7 +434,7 @@ def cells(prop, tier):
             c.body = c.body.replace('H.', 'H.BT.')
             out.append(c)
     tw = {'C03': 'cpc', 'C07': 'cpcpw', 'C08': 'cpcpc'}[prop]
-    npz = sum(1 for k in tw if k in 'pag')
+    npz = sum(1 for k in tw if k in 'pagk')
     out.append(Cell(name='twin_%s' % prop.lower(), sig='pauses: List[int], dur: int, fails: List[bool]',
                     pre=['len(pauses) == %d and all(0 <= p <= 25 for p in pauses) and 0 <= dur <= 25 and len(fails) == 2' % npz],
                     body='H.twin(%r, %r, pauses, dur, fails)' % (prop, tw), expect='refute', timeout=200, family=prop.lower()))
